@@ -210,9 +210,21 @@ def expected_from_base(base, perm, sign, shift):
 # centred elsewhere and the discretisation differs: observed scatter 4.2e-4 in vw, 3e-4 rel in
 # T+-, 1.2e-4 rel in the widths, 3e-4 of a width in the wall separation.  With the same field
 # order (pure translation / reflection) only rounding and the minimiser's termination differ:
-# observed < 1e-6 in vw, 8e-5 rel in the widths.
+# observed 3e-7 in vw, 4e-5 rel in the widths.
 TOL_REPIN = dict(vw=4e-3, vwLTE=1e-5, vJ=1e-6, T=1.5e-3, width=0.03, sep=0.03, phase=1e-4)
-TOL_SAME = dict(vw=1e-4, vwLTE=1e-5, vJ=1e-6, T=5e-5, width=2e-3, sep=2e-3, phase=1e-4)
+TOL_SAME = dict(vw=2e-5, vwLTE=1e-5, vJ=1e-6, T=1e-5, width=5e-4, sep=5e-4, phase=1e-4)
+
+
+# The one recorded finding (known_findings.json) keeps its historical key; every other
+# relabelling has a key of its own, so that it is reported as a new violation.
+KNOWN_KEYS = {"e2e:xsm3:perm=201:sign=+++:shift=zero": "e2e:xsm3:pinned=2"}
+
+
+def e2e_key(model, perm, sign, shift):
+    k = "e2e:%s:perm=%s:sign=%s:shift=%s" % (
+        model, "".join(str(p) for p in perm), "".join("+" if x > 0 else "-" for x in sign),
+        "zero" if not any(shift) else "nonzero")
+    return KNOWN_KEYS.get(k, k)
 
 
 def compare_runs(ctx, base, new, perm, sign, shift, label):
@@ -258,7 +270,7 @@ def compare_runs(ctx, base, new, perm, sign, shift, label):
         fail_once(ctx, "relabelled run %s differs from the base run: %s" % (
             json.dumps(case), "; ".join(bad[:4])),
             dict(kind="e2e", case=case, base=_slim(base), new=_slim(new), differences=bad),
-            key="e2e:" + label)
+            key=e2e_key(base["model"], perm, sign, shift))
     return not bad, dev
 
 
@@ -610,7 +622,11 @@ Ltac ev := cbv beta iota delta [wallProfile_ret0 wallProfile_ret1 action_ret upd
 def transformations(ctx):
     """(model, perm, sign, shift, label)"""
     quick = [("xsm2", (1, 0), (1, 1), (0.0, 0.0), "permutation"),
-             ("xsm2", (0, 1), (1, 1), (60.0, -45.0), "translation")]
+             ("xsm2", (0, 1), (1, 1), (60.0, -45.0), "translation"),
+             # three fields with the light follower field listed first: the recorded finding
+             # "e2e:xsm3:pinned=2" (result depends on which wall is pinned), replayed on every
+             # run so that it is noticed when it goes away or changes
+             ("xsm3", (2, 0, 1), (1, 1, 1), (0.0, 0.0, 0.0), "pin-light-field")]
     if ctx.quick:
         return quick
     out = list(quick)
@@ -622,12 +638,10 @@ def transformations(ctx):
             shift = (float(rng.randint(-120, 120)), float(rng.randint(-120, 120)))
             out.append(("xsm2", perm, sign, shift, "general"))
     out.append(("xsm2", (1, 0), (1, 1), (-30.0, 75.0), "general"))
-    # three fields: every non-trivial permutation once, with random signs and shifts
-    for perm in itertools.permutations(range(3)):
-        if perm == (0, 1, 2):
-            out.append(("xsm3", perm, (-1, 1, -1), (35.0, -80.0, 12.0), "general"))
-            continue
-        sign = tuple(rng.choice((1, -1)) for _ in range(3))
+    # three fields: every ordering that pins h or s, with random signs and shifts
+    for perm in ((0, 1, 2), (0, 2, 1), (1, 0, 2), (1, 2, 0)):
+        sign = (-1, 1, -1) if perm == (0, 1, 2) else tuple(rng.choice((1, -1))
+                                                             for _ in range(3))
         shift = tuple(float(rng.randint(-120, 120)) for _ in range(3))
         out.append(("xsm3", perm, sign, shift, "general"))
     return out
@@ -745,4 +759,37 @@ def replay(rep):
         print("new :", json.dumps(_slim(new)))
         print("bounds seen:", new["bounds_seen"])
         print("expected from base:", expected_from_base(base, c["perm"], c["sign"], c["shift"]))
+        return 0
+    if "fields" in c:
+        import WallGo
+        from WallGo import EOM, Fields
+        fs = [tuple(Fraction(x) for x in f) for f in c["fields"]]
+        perm, sign = c["perm"], c["sign"]
+        shift = [Fraction(x) for x in c["shift"]]
+        fs2 = relabel_fs(fs, perm, sign, shift)
+        n = len(fs)
+        grid = WallGo.Grid3Scales(20, 11, 5.0, 5.0, 1.0, 100.0, 0.5, 0.1)
+
+        class Zero:
+            def evaluate(self, fields, T):
+                return 0.0 * Fields(fields).getField(0)
+
+        class D0:
+            coefficients = np.zeros((0, len(grid.xiValues)))
+        T = np.ones(len(grid.xiValues))
+        for lab, conf in (("original", fs), ("relabelled", fs2)):
+            lo, hi = vevs(conf)
+            print(lab, "fields (vevLow, vevHigh, width, offset):", [[float(x) for x in f]
+                                                                    for f in conf])
+            print("  kinetic term (EOM.action with V=0):",
+                  EOM.action(eom_stub(n, grid, Zero()), wallparams(conf), lo, hi, T, D0),
+                  " reference sum (dphi)^2/(6L):",
+                  float(sum((f[1] - f[0]) ** 2 / (6 * f[2]) for f in conf)))
+            z = np.array(rep.get("z", [0.0, 0.5]), float).ravel()
+            print("  wallProfile at z=%r:" % list(z),
+                  EOM.wallProfile(eom_stub(n), z, lo, hi, wallparams(conf))[0].tolist())
+            st = eom_stub(n, GridSpy())
+            st.meanFreePathScale, st.includeOffEq = 0.5, True
+            EOM._updateGrid(st, wallparams(conf), rep.get("vmid", 0.5))
+            print("  _updateGrid ->", st.grid.args)
     return 0
